@@ -132,8 +132,56 @@ def programmatic_roundtrip(di: int, ri: int, dk: int) -> bool:
         return verdict(False)
 
 
+DEFAULT_ALPHABET = ["0", "1", "9", "-", "\n", "a", " ", '"', "\\", "\r", "é", ".", "e", "\u2028", "+"]
+
+
+def _default_text(s, ty, where) -> bool:
+    from graphql import GraphQLID, GraphQLInputField, GraphQLInputObjectType, GraphQLString, execute_sync, parse
+
+    from graphql.type import GraphQLDefaultInput as D
+
+    t = GraphQLID if ty == 0 else GraphQLString
+    if where == 0:
+        args = {"a": GraphQLArgument(t, default=D(s))}
+    elif where == 2:
+        args = {"a": GraphQLArgument(t, default_value=s)}  # the legacy (already coerced) form
+    else:
+        inp = GraphQLInputObjectType("In", {"x": GraphQLInputField(t, default=D(s)), "y": GraphQLInputField(GraphQLInt)})
+        args = {"a": GraphQLArgument(inp, default=D({"y": 1}))}
+
+    def effective(schema):
+        schema.query_type.fields["f"].resolve = lambda _src, _info, **kw: repr(kw)
+        r = execute_sync(schema, parse("{ f }"))
+        return None if r.errors else r.data["f"]
+
+    from graphql import GraphQLString as Str
+    s1 = GraphQLSchema(GraphQLObjectType("Query", {"f": GraphQLField(Str, args)}))
+    if validate_schema(s1):
+        return False
+    text = print_schema(s1)
+    s2 = build_schema(text)
+    if not same_schema(s1, s2):
+        return False
+    e1, e2 = effective(s1), effective(s2)
+    return e1 is not None and e1 == e2
+
+
+def default_text(k0: int, k1: int, k2: int, *, length: int, ty: int, where: int) -> bool:
+    """Default values of type ID / String given as Python strings (digits, sign, line terminators,
+    quotes, escapes...): the printed default reads back as the same value -- compared through the
+    argument values a resolver actually receives."""
+    n = len(DEFAULT_ALPHABET)
+    ks = [forked(k0, 0, n), forked(k1, 0, n), forked(k2, 0, n)][:length]
+    text = "".join(DEFAULT_ALPHABET[k] for k in ks)
+    try:
+        return verdict(concrete(_default_text, text, ty, where))
+    except Exception:
+        return verdict(False)
+
+
 BOUNDS = {
     "quick": [
+        "default value text: every string of 0..3 symbols from a 15-symbol alphabet (digits, sign, LF, CR, U+2028, quote, backslash, blank, letters) as default of an ID / String argument or input field, compared through the argument values a resolver receives",
         "description text: every string of exactly 0..2 scalar values (cells by class of the first char) in 5 positions (type, field, argument, enum value, schema); deprecation reason: every string of 0..2",
         "512 SDL schemas (9 optional parts); 20 adversarial strings x 6 reasons x 4 default-value shapes on a programmatic schema",
     ],
@@ -154,6 +202,10 @@ def obligations(tier):
             for where in (range(5) if (th or n < 2) else (1, 3)):
                 obs.append(dict(fn="description_text", cell=dict(length=n, where=where, c0=c0), budget_s=B if (th or n < 2) else 60, expect_confirm=th or n < 2))
             obs.append(dict(fn="deprecation_reason_text", cell=dict(length=n, c0=c0), budget_s=B, expect_confirm=th or n < 2))
+    for length in (0, 1, 2, 3):
+        for ty in (0, 1):
+            for where in (0, 1, 2):
+                obs.append(dict(fn="default_text", cell=dict(length=length, ty=ty, where=where), budget_s=B * 3 if length == 3 else B, expect_confirm=th or length < 3))
     obs.append(dict(fn="family_roundtrip", cell={}, budget_s=B * 2))
     obs.append(dict(fn="programmatic_roundtrip", cell={}, budget_s=B * 2))
     return obs
@@ -166,5 +218,10 @@ def corpus():
     yield "deprecation_reason_text", dict(length=2, c0=2), dict(r='"x')
     yield "family_roundtrip", {}, dict(b0=True, b1=True, b2=True, b3=True, b4=True, b5=True, b6=True, b7=True, b8=True)
     yield "family_roundtrip", {}, dict(b0=False, b1=False, b2=False, b3=False, b4=False, b5=False, b6=False, b7=True, b8=True)
+    for ty in (0, 1):
+        for where in (0, 1, 2):
+            yield "default_text", dict(length=3, ty=ty, where=where), dict(k0=1, k1=0, k2=5)
+            yield "default_text", dict(length=2, ty=ty, where=where), dict(k0=3, k1=1, k2=0)
+            yield "default_text", dict(length=3, ty=ty, where=where), dict(k0=7, k1=8, k2=4)
     for di in range(len(ADVERSARIAL)):
         yield "programmatic_roundtrip", {}, dict(di=di, ri=di % 6, dk=di % 4)
